@@ -106,4 +106,14 @@ def bfs {σ : Type} [DecidableEq σ] (succ : σ → List σ) (univ : List σ) (s
   let s := dedup srcs
   bfsAux succ (univ.length + 1) s s
 
+/-- BFS with an explicit pop budget (for implicit graphs whose universe is too big to list). -/
+def bfsN {σ : Type} [DecidableEq σ] (succ : σ → List σ) (fuel : Nat) (srcs : List σ) : List σ :=
+  let s := dedup srcs
+  bfsAux succ fuel s s
+
+/-- Index of the first occurrence (`l.length` when absent). -/
+def indexOf {β : Type} [DecidableEq β] (x : β) : List β → Nat
+  | [] => 0
+  | y :: t => if y = x then 0 else indexOf x t + 1
+
 end AV
